@@ -546,7 +546,12 @@ contract(
                               " and w_tilde_value == curvature_preload[c04_off(curvature_lengths, data_0) + data_1_index]",
                               _FA.format(e=_ACC1 + " + c04_map(" + _U3 + ", data_0, i) * w_tilde_value * c04_map(" + _U3 + ", data_1, j)"),
                               _FA.format(e=_ACC1 + " + c04_map(" + _U3 + ", data_0, i) * curvature_preload[c04_off(curvature_lengths, data_0) + data_1_index]"
-                                         " * c04_map(" + _U3 + ", curvature_indexes[c04_off(curvature_lengths, data_0) + data_1_index], j)")]}},
+                                         " * c04_map(" + _U3 + ", curvature_indexes[c04_off(curvature_lengths, data_0) + data_1_index], j)"),
+                              # the step of the inner sum, spelled out
+                              "forall(0, P, lambda i: forall(0, P, lambda j: " + _gin(_U3, _U3, "data_0", "data_1_index + 1") + " == "
+                              + _gin(_U3, _U3, "data_0", "data_1_index") + " + c04_map(" + _U3 + ", data_0, i)"
+                              " * curvature_preload[c04_off(curvature_lengths, data_0) + data_1_index]"
+                              " * c04_map(" + _U3 + ", curvature_indexes[c04_off(curvature_lengths, data_0) + data_1_index], j)))"]}},
         2: {"inv": [_FA.format(e=_ACC2)]},
         3: {"inv": [_FA.format(e=_ACC3)]},
         4: {"inv": ["forall(0, P, lambda a: forall(0, P, lambda b: curvature_matrix[a, b] == (" + _SYM + " if a < i and b >= a else " + _GIJ.format(i="a", j="b") + ")))"]},
@@ -561,3 +566,84 @@ contract(
                        "overlap matrix U of the preload (diagonal stored halved): F[a,b] = G[a,b] + G[b,a], G = M^T U M",
               "result[b, a])": "the curvature matrix is symmetric"},
 )
+
+
+def _preload_tables(rng, n, upper=True):
+    """random sparse rows over n data pixels: (values, partner indexes, lengths); `upper`: partners >= row, ascending (as the real preload)"""
+    pre, idx, ln = [], [], np.zeros(n, dtype=int)
+    for d in range(n):
+        cand = list(range(d, n)) if upper else list(range(n))
+        m = rng.randint(0, len(cand))
+        chosen = sorted(rng.sample(cand, m)) if upper else [rng.choice(cand) for _ in range(m)]
+        ln[d] = len(chosen)
+        for q in chosen:
+            idx.append(q)
+            pre.append(rng.choice([rng.uniform(-2, 2), 1.0, -0.5, 0.25]))
+    extra = rng.choice([0, 0, 2])
+    return (np.array(pre + [7.0] * extra, dtype=float), np.array(idx + [0] * extra, dtype=int), ln)
+
+
+def _g_curv(rng, tier):
+    for _ in range(gens.budget(tier, 150, 1500)):
+        n, p = rng.randint(0, 4), rng.randint(0, 3)
+        pre, idx, ln = _preload_tables(rng, n, upper=rng.random() < 0.7)
+        u, w, pl = _utables(rng, n, p)
+        yield {"curvature_preload": pre, "curvature_indexes": idx, "curvature_lengths": ln,
+               "data_to_pix_unique": u, "data_weights": w, "pix_lengths": pl, "pix_pixels": p}
+
+
+CONTRACTS[IU + "curvature_matrix_via_w_tilde_curvature_preload_imaging_from"].gen = _g_curv
+CONTRACTS[IU + "curvature_matrix_via_w_tilde_curvature_preload_imaging_from"].nontrivial = lambda curvature_preload, **kw: bool((curvature_preload < 0).any())
+
+
+# off-diagonal block between two mappers: (M0^T U M1)[i, j]   (the caller adds the transposed block of the swapped pair)
+_T0 = "data_to_pix_unique_0, data_weights_0, pix_lengths_0, P0"
+_T1 = "data_to_pix_unique_1, data_weights_1, pix_lengths_1, P1"
+_OGD = lambda n: _g(_T0, _T1, n)
+_OACC1 = _OGD("data_0") + " + " + _gin(_T0, _T1, "data_0", "data_1_index")
+_OACC2 = _OACC1 + " + c04_mapc(" + _T0 + ", data_0, i, pix_0_index) * w_tilde_value * c04_map(" + _T1 + ", data_1, j)"
+_OACC3 = (_OACC2 + " + (data_weights_0[data_0, pix_0_index] if data_to_pix_unique_0[data_0, pix_0_index] == i else 0) * w_tilde_value * "
+          "c04_mapc(" + _T1 + ", data_1, j, pix_1_index)")
+_OFA = "forall(0, P0, lambda i: forall(0, P1, lambda j: curvature_matrix[i, j] == {e}))"
+_OSTEPT = ("c04_map(" + _T0 + ", data_0, i) * curvature_preload[c04_off(curvature_lengths, data_0) + data_1_index]"
+           " * c04_map(" + _T1 + ", curvature_indexes[c04_off(curvature_lengths, data_0) + data_1_index], j)")
+contract(
+    IU + "curvature_matrix_off_diags_via_w_tilde_curvature_preload_imaging_from", props=["C04"],
+    types={**_PRE3, "data_to_pix_unique_0": "int[2]", "data_weights_0": "real[2]", "pix_lengths_0": "int[1]", "pix_pixels_0": "int",
+           "data_to_pix_unique_1": "int[2]", "data_weights_1": "real[2]", "pix_lengths_1": "int[1]", "pix_pixels_1": "int"},
+    returns="real[2]",
+    let={"N": "curvature_lengths.shape[0]", "P0": "pix_pixels_0", "P1": "pix_pixels_1"},
+    requires=["pix_pixels_0 >= 0", "pix_pixels_1 >= 0"] + _PREREQ
+             + _ut("data_to_pix_unique_0", "data_weights_0", "pix_lengths_0", "N", "P0")
+             + _ut("data_to_pix_unique_1", "data_weights_1", "pix_lengths_1", "N", "P1"),
+    ensures=["result.shape[0] == P0", "result.shape[1] == P1",
+             "forall(0, P0, lambda i: forall(0, P1, lambda j: result[i, j] == " + _OGD("N") + "))"],
+    loops={
+        0: {"inv": ["curvature_index == c04_off(curvature_lengths, data_0)", _OFA.format(e=_OGD("data_0"))]},
+        1: {"inv": ["curvature_index == c04_off(curvature_lengths, data_0) + data_1_index", _OFA.format(e=_OACC1)],
+            "assert_at": {0: [_STEP],
+                          3: ["data_1 == curvature_indexes[c04_off(curvature_lengths, data_0) + data_1_index]"
+                              " and w_tilde_value == curvature_preload[c04_off(curvature_lengths, data_0) + data_1_index]",
+                              _OFA.format(e=_OACC1 + " + c04_map(" + _T0 + ", data_0, i) * w_tilde_value * c04_map(" + _T1 + ", data_1, j)"),
+                              _OFA.format(e=_OACC1 + " + " + _OSTEPT),
+                              "forall(0, P0, lambda i: forall(0, P1, lambda j: " + _gin(_T0, _T1, "data_0", "data_1_index + 1") + " == "
+                              + _gin(_T0, _T1, "data_0", "data_1_index") + " + " + _OSTEPT + "))"]}},
+        2: {"inv": [_OFA.format(e=_OACC2)]},
+        3: {"inv": [_OFA.format(e=_OACC3)]},
+    },
+    sentence={"sumto": "the off-diagonal block of two mappers is M0^T U M1 for the sparse upper-triangular overlap matrix U of the preload"},
+)
+
+
+def _g_offd(rng, tier):
+    for _ in range(gens.budget(tier, 150, 1500)):
+        n, p0, p1 = rng.randint(0, 4), rng.randint(0, 3), rng.randint(0, 3)
+        pre, idx, ln = _preload_tables(rng, n, upper=rng.random() < 0.7)
+        u0, w0, l0 = _utables(rng, n, p0)
+        u1, w1, l1 = _utables(rng, n, p1)
+        yield {"curvature_preload": pre, "curvature_indexes": idx, "curvature_lengths": ln,
+               "data_to_pix_unique_0": u0, "data_weights_0": w0, "pix_lengths_0": l0, "pix_pixels_0": p0,
+               "data_to_pix_unique_1": u1, "data_weights_1": w1, "pix_lengths_1": l1, "pix_pixels_1": p1}
+
+
+CONTRACTS[IU + "curvature_matrix_off_diags_via_w_tilde_curvature_preload_imaging_from"].gen = _g_offd
